@@ -1133,3 +1133,57 @@ def r_destinations_match(ex, rec, positions):
         excluded = z3.Exists([j], z3.And(j >= 0, j < term(ne, "int"), num(ej) == p))
     requested = z3.Or(*[term(x, "int") == p for x in ps])
     return mk_bool(z3.ForAll([p], z3.And(lo_t <= p, p <= hi_t, z3.Not(excluded)) == requested))
+
+
+# ----------------------------------------------------------------------------- transfer (C07)
+
+
+@spec
+def transfer_order(ex, source, destination, source_wells, destination_wells, partition_by):
+    """order in which the triples are processed: grouped by the column of the partitioning side (ascending), rows ascending
+    within a column, ties in the order given.  Partitioning side: destination iff (auto and source is a trough and the
+    destination is not) or explicitly 'destination'."""
+    sw = colmajor(ex, source_wells).concrete_items()
+    dw = colmajor(ex, destination_wells).concrete_items()
+    src_trough = source.fields.get("virtual_rows") is not None
+    dst_trough = destination.fields.get("virtual_rows") is not None
+    by_dst = partition_by == "destination" or (partition_by == "auto" and src_trough and not dst_trough)
+    keys = [ops.to_abstract(w) for w in (dw if by_dst else sw)]
+    n = len(keys)
+    if n == 1:
+        return SeqV.of("list", [0])
+    if n == 2:
+        a, b = keys
+        # (column, row) lexicographic, stable
+        lt = z3.Or(term(b.c, "int") < term(a.c, "int"), z3.And(term(b.c, "int") == term(a.c, "int"), term(b.r, "int") < term(a.r, "int")))
+        return ops.ite(ex, z3.simplify(lt), SeqV.of("list", [1, 0]), SeqV.of("list", [0, 1]))
+    raise Unsupported("transfer_order for more than two triples")
+
+
+@spec
+def concat_blocks(ex, order, cond, f):
+    """concatenation of f(o) over the indices o of `order` for which cond(o) holds"""
+    n = ops.seq_len(order)
+    out = SeqV("list")
+    for k in range(n):
+        o = ops.seq_get(ex, order, k)
+        c = ex.truth(_call(ex, cond, o))
+        item = _call(ex, f, o)
+        if isinstance(c, bool):
+            if c:
+                out = ops.seq_concat(ex, out, item)
+        else:
+            out = ops.seq_concat(ex, out, ops.ite(ex, c, item, SeqV("list")))
+    return out
+
+
+@spec
+def tip_action(ex, wl, wash_scheme):
+    """record(s) of the requested tip action: W1-W4 ('W;' in DiTi mode), 'F;' for flush, nothing for reuse"""
+    if wash_scheme == "flush":
+        return SeqV.of("list", ["F;"])
+    if wash_scheme == "reuse":
+        return SeqV("list")
+    if wl.fields.get("diti_mode"):
+        return SeqV.of("list", ["W;"])
+    return SeqV.of("list", [lib.join_str_parts(ex, ["W", lib.format_value(ex, wash_scheme, ""), ";"])])
